@@ -277,8 +277,17 @@ class BaseLoader(ABC):
 
 
 def openPackageResource(package, path):
-    __import__(package)
-    pkg = sys.modules[package]
+    try:
+        __import__(package)
+        pkg = sys.modules[package]
+        pkg.__path__
+    except (ImportError, ValueError, KeyError, AttributeError) as e:
+        # not importable, not a legal module name, or a module that is
+        # not a package
+        raise ZConfig.SchemaResourceError(
+            "could not import package: " + repr(e),
+            filename=path,
+            package=package)
     try:
         loader = pkg.__loader__
     except AttributeError:
